@@ -43,7 +43,7 @@ impl Scenario for C15 {
         "C15"
     }
     fn rule(&self) -> String {
-        format!("Systematic grid over client options x server Tune: channel_max in {:?}, frame_max in {:?}, heartbeat in {:?} on each side = {} combinations (both tiers walk all of them; thorough with 5 seeds each), each run on the simulated clock. Oracle: TuneOk on the wire equals the model (0 = no limit, both unlimited => the field's maximum, heartbeat = min with 0 dominant); a resulting frame_max < 4096 fails with FrameMaxTooSmall and no TuneOk is written. Then the same connection must behave by the announced values: open_channel(Some(channel_max)) succeeds and Some(channel_max+1) is refused with UnavailableChannelId; a body of 3*(frame_max-8)+1 bytes (10 kB when unlimited) is split into frames <= frame_max (C02's decoder); with heartbeat h>0 an idle stretch of 3h shows client->server gaps <= h+0.3 s, with 0 no heartbeat frame in 100 s. Non-trivial = all combinations with a usable connection (those are behaviour-checked) or a FrameMaxTooSmall refusal; distinct = grid index.", CM, FM, HB, grid_size())
+        format!("Systematic grid over client options x server Tune: channel_max in {:?}, frame_max in {:?}, heartbeat in {:?} on each side = {} combinations (both tiers walk all of them; thorough with 5 seeds each), each run on the simulated clock. Oracle: TuneOk on the wire equals the model (0 = no limit, both unlimited => the field's maximum, heartbeat = min with 0 dominant); a resulting frame_max < 4096 fails with FrameMaxTooSmall and no TuneOk is written. Then the same connection must behave by the announced values: open_channel(Some(channel_max)) succeeds and Some(channel_max+1) is refused with UnavailableChannelId; a body of 3*(frame_max-8)+1 bytes (10 kB when unlimited) is split into frames <= frame_max (C02's decoder); with heartbeat h>0 an idle stretch of 3h shows client->server gaps <= h+0.3 s, with 0 no heartbeat frame in 100 s. Non-trivial = all combinations with a usable connection (those are behaviour-checked) or a FrameMaxTooSmall refusal; distinct = grid index. Family 'ids' (seeded): channel_max from {{1,2,3,7}}, a program of automatic opens and closes that exhausts the id space, and up to 3 stray Channel.CloseOk frames from the server on ids above channel_max (tolerated by the client by design); oracle: no open_channel(None) returns an id outside 1..=channel_max and no Channel.Open is written on one; non-trivial = the id space was exhausted.", CM, FM, HB, grid_size())
     }
     fn level(&self) -> &'static str {
         "fault_enumeration"
@@ -60,9 +60,14 @@ impl Scenario for C15 {
                 v.push(CaseSpec { family: "grid".into(), seed: amiquip_simrt::choice::mix(seed, 15 + r, i as u64), params: vec![i as i64], choices: None });
             }
         }
+        let mut ids = plan_random("C15", "ids", seed, if thorough { 40_000 } else { 2_400 });
+        v.append(&mut ids);
         v
     }
     fn run_case(&self, spec: &CaseSpec, text: bool) -> CaseReport {
+        if spec.family == "ids" {
+            return run_ids(spec, text);
+        }
         let mut cs = spec.stream();
         let gi = spec.params.first().copied().unwrap_or(0) as usize % grid_size();
         let ((c_cm, c_fm, c_hb), (s_cm, s_fm, s_hb)) = decode_grid(gi);
@@ -211,4 +216,111 @@ impl Scenario for C15 {
         rep.distinct = gi as u64;
         rep
     }
+}
+
+/// Family 'ids': a small negotiated channel_max, a program of automatic opens and closes that runs the id
+/// space out more than once, and a server that strays: Channel.CloseOk frames on ids nobody uses, above
+/// channel_max (tolerated by the client by design).  Whatever happens, no id above channel_max may be handed out
+/// and no Channel.Open may be written on one.
+fn run_ids(spec: &CaseSpec, text: bool) -> CaseReport {
+    use amq_protocol::protocol::channel::{AMQPMethod as Ch, CloseOk};
+    use crate::broker::{Action, Trigger};
+    let mut cs = spec.stream();
+    let cm = *pick(&mut cs, "cm", &[1u16, 2, 3, 7]);
+    let (c_cm, s_cm) = match cs.choose("cm_side", 3) {
+        0 => (cm, 0u16),
+        1 => (0u16, cm),
+        _ => (cm, cm),
+    };
+    let mut broker = BrokerCfg::default();
+    broker.tune = (s_cm, 131072, 0);
+    broker.think_max_ns = *pick(&mut cs, "think", &[0u64, 50_000]);
+    let n_stray = cs.choose("n_stray", 4);
+    let mut stray_ids = Vec::new();
+    for _ in 0..n_stray {
+        let id = *pick(&mut cs, "stray_id", &[cm + 1, cm + 2, 2 * cm + 3, 65535, 1000]);
+        let mut f = Vec::new();
+        wire::method(&mut f, id, &AMQPClass::Channel(Ch::CloseOk(CloseOk {})));
+        let trig = if cs.choose("stray_when", 2) == 0 { Trigger::OnOpen } else { Trigger::AtTime(10_000_000) };
+        broker.script.push((trig, Action::Raw { ch: 0, frames: vec![f] }));
+        stray_ids.push(id);
+    }
+    let mut owner_ops = Vec::new();
+    let n_ops = cs.choose("n_ops", 2 * cm as u32 + 6) as usize;
+    let sleep_at = cs.choose("sleep_at", n_ops as u32 + 1) as usize;
+    let mut kept = 0usize;
+    for i in 0..n_ops {
+        if i == sleep_at {
+            owner_ops.push(OwnerOp::SleepNs(20_000_000));
+        }
+        if kept > 0 && cs.choose("op", 10) >= 7 {
+            owner_ops.push(OwnerOp::CloseKept { nth: cs.choose("close_which", kept as u32) as usize });
+        } else {
+            owner_ops.push(OwnerOp::OpenChannel { id: None, keep: true });
+            kept += 1;
+        }
+    }
+    if sleep_at >= n_ops {
+        owner_ops.push(OwnerOp::SleepNs(20_000_000));
+    }
+    for _ in 0..cm as usize + 2 {
+        owner_ops.push(OwnerOp::OpenChannel { id: None, keep: true });
+    }
+    let opts = ConnOpts { channel_max: c_cm, ..ConnOpts::default() };
+    let plan = SessionPlan { opts, tuning: Tuning::default(), threads: vec![], owner_ops, close: CloseKind::Close, join_before_close: true };
+    let mut net = NetCfg::default();
+    net.c2s_lat_min_ns = 1_000;
+    net.c2s_lat_max_ns = *pick(&mut cs, "c2s_lat", &[1_000u64, 100_000]);
+    let mut sched = SchedCfg::default();
+    sched.stick_pct = *pick(&mut cs, "stick", &[90u32, 50]);
+    sched.hang_after_ns = 100 * SEC;
+    let gen = Generated { plan, net, broker, sched, frame_max: 131072 };
+    let (res, world) = run_generated(&gen, cs, text, |_| {});
+    let mut rep = CaseReport::default();
+    fill_common(&mut rep, &res, &world);
+    rep.sample = serde_json::json!({"family": "ids", "channel_max": cm, "client_option": c_cm, "server_tune": s_cm, "stray_close_ok_on": stray_ids});
+    for p in &res.run.panics {
+        rep.violate("panic", format!("{}@{}", p.thread, p.location), format!("{} panicked: {}", p.thread, p.message));
+    }
+    if let Some((sig, detail)) = hang_sig(&res.run.outcome) {
+        rep.violate("hang", sig, format!("channel_max {} stray CloseOk on {:?}: {}", cm, stray_ids, detail));
+        return rep;
+    }
+    if rep.inconclusive.is_some() {
+        return rep;
+    }
+    let ctx = format!("channel_max {} (client option {}, server {}), stray Channel.CloseOk on {:?}", cm, c_cm, s_cm, stray_ids);
+    let mut opened = 0u64;
+    let mut refused = 0u64;
+    for c in &res.hist.conn {
+        if let ConnRec::OpenChannel { requested: None, result, .. } = c {
+            match result {
+                Ok(id) if *id == 0 || *id > cm => {
+                    rep.violate("channel-max-obeyed", "auto-id-above-max", format!("{}: open_channel(None) returned id {}", ctx, id));
+                    return rep;
+                }
+                Ok(_) => opened += 1,
+                Err(_) => refused += 1,
+            }
+        }
+    }
+    let n = world.net.lock().unwrap();
+    if let Ok(per) = crate::oracles::decode_c2s(&n.c2s) {
+        for (ch, frames) in &per {
+            for (_, _, f) in frames {
+                if let AMQPFrame::Method(_, AMQPClass::Channel(Ch::Open(_))) = f {
+                    if *ch == 0 || *ch > cm {
+                        rep.violate("channel-max-obeyed", "open-on-wire-above-max", format!("{}: Channel.Open written on channel {}", ctx, ch));
+                        return rep;
+                    }
+                }
+            }
+        }
+    }
+    rep.count("c15.ids_runs", 1);
+    rep.count("c15.ids_stray_close_ok", stray_ids.len() as u64);
+    rep.count("c15.ids_refused_opens", refused);
+    rep.nontrivial = opened >= cm as u64 && refused > 0;
+    rep.distinct = amiquip_simrt::choice::mix(cm as u64, stray_ids.iter().fold(7u64, |h, x| h.wrapping_mul(31).wrapping_add(*x as u64)), opened * 64 + refused) | (1 << 62);
+    rep
 }
